@@ -10,6 +10,8 @@ impl<M: Math> Transformation<M> for LowRankMassMatrix<M> {
     open spec fn view(&self) -> TransView { TransView { id: self.id as int, params: self.content@ } }
 }
 impl<M: Math> LowRankMassMatrix<M> {
+    /// façade of `Transformation::transformation_id` for LowRankMassMatrix (transform/low_rank.rs: returns `self.id`)
+    pub fn transformation_id(&self, math: &mut M) -> (r: i64) ensures r == self.id { self.id }
     /// transform/low_rank.rs:143-156: resets `inner`, runs DiagMassMatrix::update_diag_grad, `self.id += 1`
     #[verifier::external_body]
     pub fn update_from_grad(&mut self, math: &mut M, pos: &M::Vector, grad: &M::Vector, fill_invalid: F, clamp: (F, F))
